@@ -586,12 +586,19 @@ type world struct {
 	gen   int
 }
 
-// The namespace admits maxClients client connections; the harness never holds more than
-// 2*maxWorkers+2 at a time, so only a leaked slot can exhaust the limit.
+// max_client_connections is far above what the harness ever opens. A small limit (so that
+// leaked slots exhaust it) does not work here: Session.Run's cleanup calls TimeWheel.Remove,
+// which blocks while the wheel's 4096-slot pipeline is full, and the pipeline is only
+// drained every 5 s; at the harness' rate of ~1000 sessions/s the counter of the UNCHANGED
+// proxy lags thousands of closed sessions behind and any small limit refuses healthy
+// clients. Leaks are therefore detected on the counter itself (read in the child through
+// an inject accessor): it must return to its baseline after every batch / case.
 const (
 	nsName     = "ns_c38"
-	maxClients = 32
-	maxWorkers = 8
+	maxClients = 1000000
+	maxWorkers = 16
+	// liveness horizon for the counter to drain (several 5 s time-wheel ticks)
+	countHorizon = 40 * time.Second
 )
 
 func spec() e2erig.ChildSpec {
@@ -625,7 +632,7 @@ func (w *world) connCount() int {
 
 // waitCount waits (liveness horizon) until the counter is back at target or below.
 func (w *world) waitCount(target int) (int, bool) {
-	deadline := time.Now().Add(horizon)
+	deadline := time.Now().Add(countHorizon)
 	for {
 		n := w.connCount()
 		if n <= target {
